@@ -44,6 +44,8 @@ TYPES = {
     'bag': {'k': 'setof', 'tags': [], 'of': sc('octs', cons=size(0, 1)), 'sizec': {'lo': 0, 'hi': 2}},
     'pick': {'k': 'choice', 'tags': [], 'alts': [{'name': 'i', 't': sc('int', cons=rng(0, 10))}, {'name': 's', 't': sc('octs')},
                                                  {'name': 'l', 't': {'k': 'seqof', 'tags': [P.op('I', 2, 5)], 'of': sc('bool'), 'sizec': {'lo': 1, 'hi': 3}}}]},
+    'flags': {'k': 'seq', 'tags': [], 'comps': [comp('f', sc('bits', cons=size(4, 4))),
+                                               comp('g', sc('bits', [P.op('I', 2, 0)], cons=size(0, 8)), 'def', {'bits': [0, 0, 0, 0]})]},
     'nest': {'k': 'seq', 'tags': [], 'comps': [comp('h', {'k': 'seqof', 'tags': [], 'of': sc('int', cons=rng(0, 9)), 'sizec': {'lo': 0, 'hi': 1}}),
                                               comp('t', sc('octs', [P.op('E', 2, 0)], cons=size(2, 2)), 'opt')]},
 }
@@ -105,6 +107,12 @@ def candidate_values(name):
     if name == 'pick':
         return ([{'alt': 1, 'v': I(x)} for x in (0, 10, 11, -1)] + [{'alt': 2, 'v': o(1, 2)}] +
                 [{'alt': 3, 'v': {'es': [{'b': True}] * n}} for n in (0, 1, 3, 4)])
+    if name == 'flags':
+        bits = lambda *b: P_({'bits': list(b)})
+        # the same number with other numbers of leading zero bits, inside and outside SIZE (4) / SIZE (0..8)
+        return [{'cs': [f, g]} for f in (bits(0, 1, 0, 1), bits(0, 0, 0, 0, 0, 1, 0, 1), bits(1, 0, 1), bits(0, 0, 0, 0), bits(0, 0, 0, 0, 0, 0, 0, 0),
+                                          bits(), bits(1, 1, 1, 1), bits(0, 1, 1, 1, 1))
+                for g in (A, bits(0, 0, 0, 0), bits(0, 0, 0, 0, 0, 0, 0, 0, 0), bits(1), bits(0, 0, 0, 0, 0, 0, 0, 0, 1))]
     if name == 'nest':
         return [{'cs': [P_({'es': [I(x) for x in xs]}), t]} for xs in ([], [0], [9], [10], [1, 2])
                 for t in (A, P_(o(1, 2)), P_(o(1)), P_(o(1, 2, 3)))]
